@@ -62,7 +62,8 @@ def _viol(prop, overlay):
     from sa.model import AnalysisError
     try:
         run = check.run_property(prop, "quick", overlay=overlay)
-        return {(o.rule, o.function, o.construct): o.fact for o in run.obligations if not o.ok}, None
+        return {(o.rule, o.function, o.construct): o.fact for o in run.obligations if not o.ok}, \
+            ("ANALYSIS-ERROR " + "; ".join(run.analysis_errors)[:300]) if run.analysis_errors else None
     except AnalysisError as e:
         return {}, f"ANALYSIS-ERROR {e}"
     except Exception as e:  # noqa
@@ -80,11 +81,11 @@ def one(job):
             _BASE[p] = _viol(p, None)[0]
         got, err = _viol(p, ov)
         new = {k: v for k, v in got.items() if k not in _BASE[p]}
-        if err:
-            fired[p] = {"exit": 2, "rules": [], "first": err[:200]}
-        elif new:
+        if new:
             k = sorted(new)[0]
             fired[p] = {"exit": 1, "rules": sorted({k[0] for k in new}), "first": f"{k[0]} {k[1]}: {k[2][:120]}"}
+        elif err:
+            fired[p] = {"exit": 2, "rules": [], "first": err[:200]}
     return kind, sid, {"fired": fired}
 
 
